@@ -15,7 +15,7 @@ BAD = ['project p "P" 2025-01-06 +1w { }\ntask a "A" { effort 1h allocate nobody
 
 def texts(ctx, n):
     out = []
-    fams = ["core", "subslot", "limits", "deps", "alap", "hours"]
+    fams = ["core", "subslot", "limits", "deps", "alap", "hours", "alts"]
     for i in range(n):
         ap = gens.family(ctx, fams[i % len(fams)], 1)[0]
         if ctx.rng.random() < 0.4:
@@ -63,6 +63,28 @@ def run(ctx):
 
     def same(a, b):
         return json.dumps(a, sort_keys=True) == json.dumps(b, sort_keys=True)
+    # the programmatic command-line interface (run_scriptplan) alone and after other runs in the same interpreter,
+    # incl. runs that the library ends with a fatal error (report without a file name / illegal character in it)
+    FATAL = ['project p "P" 2025-01-06 +1w { }\nresource r "R" {}\ntask a "A" { effort 2h allocate r }\ntaskreport x "week 1: plan?" { formats json columns id }\n',
+             'project p "P" 2025-01-06 +1w { }\nresource r "R" {}\ntask a "A" { effort 2h allocate r }\ntaskreport { formats csv columns id }\n']
+    ctx_tx = tx[: ctx.n(24, 120)]
+    cli_fresh = common.run_workers(ctx, "w_hist", [{"text": t, "cli": True} for t in ctx_tx], hashseed="0")
+    cli_cases = []
+    for t in ctx_tx:
+        hist = [{"text": ctx.rng.choice(FATAL + BAD + ctx_tx)} for _ in range(ctx.rng.randint(1, 3))]
+        if ctx.rng.random() < 0.6:
+            hist.insert(ctx.rng.randrange(len(hist) + 1), {"text": ctx.rng.choice(FATAL)})
+        cli_cases.append({"text": t, "cli": True, "history": hist})
+    cli_hist = common.run_workers(ctx, "w_hist", cli_cases, hashseed="0")
+    for t, c, f, h in zip(ctx_tx, cli_cases, cli_fresh, cli_hist):
+        if "worker_error" in f or "worker_error" in h:
+            stats["worker_error"] += 1
+            continue
+        stats["mode:cli-history"] += 1
+        if not same(f.get("obs"), h.get("obs")):
+            bad.append({"what": "the result of run_scriptplan (status, files written) depends on what was run before it in the same interpreter",
+                        "text": t, "history": [x["text"] for x in c["history"]], "history_status": h.get("history"),
+                        "fresh": f.get("obs"), "after_history": h.get("obs")})
     for i, t in enumerate(tx):
         f = fresh[i]
         if "worker_error" in f:
@@ -92,7 +114,7 @@ def run(ctx):
         violations.append({"no_input": True, "replay": common.write_replay(ctx, {"property": "C12", "kind": "proof obligation no longer checks; no failing input found", "failing_obligations": failing})})
     cov = {"obligations": nob, "discharged": ndis, "checker_cmd": "tools/coqbuild.sh (coqc 8.16.1 full .vo build)", "trusted_base": common.TRUSTED, "files": files,
            "traces_validated_against_impl": len(tx) * 4, "input_distribution": dict(stats), "hash_seeds": ["0"] + seeds,
-           "rule": "each project text (6 generator families, 40% with nested scenarios and scenario-specific efforts, a cost report attached) is processed (a) alone in a fresh process, (b) after a random history of 1-4 other parse/schedule/report calls incl. failing ones, with a fresh parser object per call or ONE parser object reused, (c) twice, (d) followed by a second schedule(), (e) under two further PYTHONHASHSEED values; dates of all scenarios, the ledger and the report tables are compared",
+           "rule": "each project text (7 generator families incl. allocations with two or three alternatives on resources of differing availability, 40% with nested scenarios and scenario-specific efforts, a cost report attached) is processed (a) alone in a fresh process, (b) after a random history of 1-4 other parse/schedule/report calls incl. failing ones, with a fresh parser object per call or ONE parser object reused, (c) twice, (d) followed by a second schedule(), (e) under two further PYTHONHASHSEED values, (f) through run_scriptplan (the interface 'plan report' uses) alone and after 1-4 other such runs incl. runs the library ends with a fatal error; dates of all scenarios, the ledger and the report tables are compared",
            "samples": [{"mode": kinds[0], "text": tx[0][:700]}]}
     common.finish(ctx, "proof", cov, violations,
                   ["partial: hash-seed and interpreter-level nondeterminism are outside the model and are covered by the runs only",
